@@ -1110,6 +1110,8 @@ def _dispatch(pid):
                 if st.kind == "pure" and st.toks and st.toks[0] == "ratio" and "mismatch" in st.out:
                     yield finding("C16", st, f"hit ratio after {st.toks[1]} hits and {st.toks[2]} misses: {st.out}", "C16/hit-ratio")
         for st in case.steps:
+            if st.kind == "locks" and pid in ("C12", "C13") and st.ev.split()[1:2] == ["acks-after-shutdown"] and st.ev.split()[2] != "resolved":
+                yield finding(pid, st, f"under free-running threads with shutdown() under load: acknowledgements handed out before or during shutdown() were never answered ({st.ev.split()[2]})", f"{pid}/never-resolved-after-shutdown")
             if st.kind == "stress" and st.out.startswith("violations"):
                 for item in st.out[len("violations "):].split(" ;; "):
                     sig = item.split(" ")[0]
